@@ -12,7 +12,7 @@ while [ $k -lt $n ]; do
     i=0
     for name in $(cat /tmp/regress/all.txt); do
       if [ $((i % n)) -eq $k ]; then
-        prop=$(python3 -c "import json;d=json.load(open('/verif/seeded/$name/meta.json'));print('SKIP' if d.get('superseded') else d['breaks_property'])")
+        prop=$(python3 -c "import json;d=json.load(open('/verif/seeded/$name/meta.json'));print('SKIP' if (d.get('superseded') or d.get('undetected')) else d['breaks_property'])")
         if [ "$prop" = SKIP ]; then echo "SKIPPED" > /tmp/regress/$name.txt; else
           out=$(LANE_SRC=/tmp/verif_snap /verif/tools/lane.sh R$k /verif/seeded/$name/patch.diff $prop 2>&1 | tail -1)
           case "$out" in *"exit=1"*) echo "DETECTED $prop $out" > /tmp/regress/$name.txt;; *) echo "MISSED $prop :: $out" > /tmp/regress/$name.txt;; esac
